@@ -112,6 +112,24 @@ func runC03(c *core.Ctx) {
 			k.goit("restore", "--staged", "deep")
 			k.goit("commit", "-m", "again")
 		}
+		if w.Hist%12 == 2 {
+			// a tracked path that has become a symbolic link INTO the object store: bringing the file back (restore,
+			// reset --hard) must replace the link, not write the blob's bytes into a stored object
+			rp := w.State().Repo()
+			idx0, _ := idx(w.State())
+			if p, ok := k.pick(gitfmt.SortedKeys(idx0)); ok && rp != nil && rp.HeadCommit() != "" && IsFileOnDisk(w.State(), p) {
+				id := rp.HeadCommit()
+				w.Edit("rm", p, nil)
+				w.Symlink(p, strings.Repeat("../", strings.Count(p, "/"))+".goit/objects/"+id[:2]+"/"+id[2:])
+				if w.Hist%24 == 2 {
+					k.goit("restore", p)
+				} else {
+					k.goit("reset", "--hard", "HEAD@{0}")
+				}
+				k.goit("status")
+				c.Count("C03.link-into-object-store-histories")
+			}
+		}
 		if w.Hist%24 == 10 {
 			k.BoundaryFiles("blk/")
 			k.goit("add", "blk")
